@@ -194,6 +194,25 @@ Fixpoint run_steps (rules : list Acl.rule) (rt : DnsRoute.table) (cur : list N) 
         end
       | _, _ => 0
       end in
+    (* D04 on what the implementation sent: when an upstream was asked and its answer (the one [out_query]
+       settles on) decodes, the reply carries that answer's rcode and, record for record up to where the
+       size limit cut, its sections -- not an error of the resolver's own making *)
+    let v6 :=
+      match d_reply s, q with
+      | Some b, Ok qq =>
+        if negb (lenN (d_ups s) =? 0) then
+          match fst (out_query (d_tcp s) id u), decode b with
+          | UOk m0, Ok r =>
+            if (rcode r mod 16 =? rcode m0 mod 16)
+               && rrs_eqb (answer r) (firstn (length (answer r)) (answer m0))
+               && rrs_eqb (nameserver r) (firstn (length (nameserver r)) (nameserver m0))
+               && rrs_eqb (additional r) (firstn (length (additional r)) (additional m0))
+            then 0 else 6
+          | _, _ => 0
+          end
+        else 0
+      | _, _ => 0
+      end in
     let fetch' :=
       match q with
       | Ok qq =>
@@ -211,7 +230,7 @@ Fixpoint run_steps (rules : list Acl.rule) (rt : DnsRoute.table) (cur : list N) 
       let ok := opt_eqb bytes_eqb out (d_reply s) && list_eqb upq_eqb qs (d_ups s) in
       run_steps rules rt cur st'
         {| a_fetch := fetch'; a_src := src';
-           a_viol := first_nz (a_viol a) (first_nz v1 (first_nz v2 (first_nz v3 (first_nz v4 v5))));
+           a_viol := first_nz (a_viol a) (first_nz v1 (first_nz v2 (first_nz v3 (first_nz v4 (first_nz v5 v6)))));
            a_diff := first_some (a_diff a)
                        (if ok then None else Some (i :: put_optbytes out ++ lenN qs :: flat_map (fun x : upq => [fst (fst x); if snd (fst x) then 1 else 0]) qs));
            a_hit := a_hit a || (match q with
@@ -229,7 +248,7 @@ Fixpoint run_steps (rules : list Acl.rule) (rt : DnsRoute.table) (cur : list N) 
     | _ =>
       (* the model aborts: reported as a disagreement (D01_total says it cannot) *)
       {| a_fetch := fetch'; a_src := src';
-         a_viol := first_nz (a_viol a) (first_nz v1 (first_nz v2 (first_nz v3 (first_nz v4 v5))));
+         a_viol := first_nz (a_viol a) (first_nz v1 (first_nz v2 (first_nz v3 (first_nz v4 (first_nz v5 v6)))));
          a_diff := first_some (a_diff a) (Some [i; 99]);
          a_hit := a_hit a; a_drop := a_drop a; a_aclref := a_aclref a; a_tcp := a_tcp a; a_fwd := a_fwd a |}
     end
